@@ -363,6 +363,60 @@ def scenario_dtypes(rng, T, d, B, ck, cdt=None, mdt=None):
              {"b": [[nn, l, repr(np.asarray(c).tolist())] for nn, l, c in b2]})
 
 
+def scenario_empty(rng, T, d, B):
+    """EMPTY expansions (Taylor(), and an expansion reduced to nothing by reduce()) as left and as right operand of every binary
+    and in-place operation, and as the object of every unary one; model: the empty list"""
+    r, m, q = rng.randint(1, 2), rng.randint(1, 2), rng.randint(1, 2)
+    shape = (r, m); n = r * m
+    V = "(pwmod QK %d)" % n
+    b = tc.rand_expansion(rng, d, shape, tc.rand_nl(rng, -2, 4, 3, rng.choice([1, 2, 3])), density=0.5)
+    b2 = tc.rand_expansion(rng, d, (m, q), tc.rand_nl(rng, -2, 4, 1, rng.choice([1, 2])), density=0.5)
+    Bn = B.define(tc.mkx(n, b), xtype(n)); B2 = B.define(tc.mkx(m * q, b2), xtype(m * q))
+    En = B.define("[]", xtype(n)); Emq = B.define("[]", xtype(m * q))
+    # an expansion that reduce() annihilates: (x.x - 1) g
+    ex = tc.exponents(d, tc.LMAX); pos = {e: i for i, e in enumerate(ex)}
+    z = np.zeros((tc.npow_count(d, 2),) + shape); g = tc.rand_coeff(rng, d, 0, shape, density=1.0)[0]
+    for i in range(d): z[pos[tuple(2 if j == i else 0 for j in range(d))]] += g
+    z[0] -= g
+    kinds = [("Taylor()", lambda: T()), ("reduced-to-nothing", lambda: T([(2, 2, z)]).reduce())]
+    C = np.array([[tc.dy(rng) for _ in range(r)] for _ in range(q)]); k = tc.dy(rng); al, be = tc.dy(rng), tc.dy(rng)
+    one, mone = "(qq 1 1)", "(qq (-1) 1)"
+    for kname, mk in kinds:
+        if len(mk().coefflist) != 0: raise RuntimeError("harness: %s is not empty" % kname)
+        tb = T(b)
+
+        def inplace(f):
+            x = f[0](); f[1](x); return x
+        cases = [("e+b", lambda: mk() + tb, n, "(sumcoeff QK %s %s %s %s %s)" % (V, one, En, one, Bn)),
+                 ("b+e", lambda: tb + mk(), n, "(sumcoeff QK %s %s %s %s %s)" % (V, one, Bn, one, En)),
+                 ("e-b", lambda: mk() - tb, n, "(sumcoeff QK %s %s %s %s %s)" % (V, one, En, mone, Bn)),
+                 ("b-e", lambda: tb - mk(), n, "(sumcoeff QK %s %s %s %s %s)" % (V, one, Bn, mone, En)),
+                 ("e+=b", lambda: inplace((mk, lambda x: x.__iadd__(tb))), n, "(sumcoeff QK %s %s %s %s %s)" % (V, one, En, one, Bn)),
+                 ("e-=b", lambda: inplace((mk, lambda x: x.__isub__(tb))), n, "(sumcoeff QK %s %s %s %s %s)" % (V, one, En, mone, Bn)),
+                 ("b+=e", lambda: inplace((tb.copy, lambda x: x.__iadd__(mk()))), n, "(sumcoeff QK %s %s %s %s %s)" % (V, one, Bn, one, En)),
+                 ("b-=e", lambda: inplace((tb.copy, lambda x: x.__isub__(mk()))), n, "(sumcoeff QK %s %s %s %s %s)" % (V, one, Bn, mone, En)),
+                 ("sumcoeff(e,b,alpha,beta)", lambda: T(T.sumcoeff(mk(), tb, al, be)), n, "(sumcoeff QK %s %s %s %s %s)" % (V, tc.qlit(al), En, tc.qlit(be), Bn)),
+                 ("sumcoeff(b,e,alpha,beta)", lambda: T(T.sumcoeff(tb, mk(), al, be)), n, "(sumcoeff QK %s %s %s %s %s)" % (V, tc.qlit(al), Bn, tc.qlit(be), En)),
+                 ("sumcoeff(e,b,alpha,beta,inplace)", lambda: T(T.sumcoeff(mk().coefflist, tb, al, be, inplace=True)), n, "(sumcoeff QK %s %s %s %s %s)" % (V, tc.qlit(al), En, tc.qlit(be), Bn)),
+                 ("e+e", lambda: mk() + mk(), n, "(sumcoeff QK %s %s %s %s %s)" % (V, one, En, one, En)),
+                 ("e*b2", lambda: mk() * T(b2), r * q, "(coeffproduct QK %d 4 %s (pwmod QK %d) (pwmod QK %d) (matmul QK %d %d %d) %s %s)" % (d, V, m * q, r * q, r, m, q, En, B2)),
+                 ("b*e", lambda: tb * mk(), r * q, "(coeffproduct QK %d 4 %s (pwmod QK %d) (pwmod QK %d) (matmul QK %d %d %d) %s %s)" % (d, V, m * q, r * q, r, m, q, Bn, Emq)),
+                 ("e.ldot(C)", lambda: mk().ldot(C), q * m, "(mapcoeff QK %s (pwmod QK %d) (fun x => matmul QK %d %d %d %s x) %s)" % (V, q * m, q, r, m, tc.mkv(q * r, C), En)),
+                 ("e.ildot(C)", lambda: mk().ildot(C), q * m, "(mapcoeff QK %s (pwmod QK %d) (fun x => matmul QK %d %d %d %s x) %s)" % (V, q * m, q, r, m, tc.mkv(q * r, C), En)),
+                 ("-e", lambda: -mk(), n, "(negcoeff QK %s %s)" % (V, En)), ("e*k", lambda: mk() * k, n, "(scale QK %s %s %s)" % (V, tc.qlit(k), En)),
+                 ("k*e", lambda: k * mk(), n, "(scale QK %s %s %s)" % (V, tc.qlit(k), En)), ("e.truncate(1)", lambda: mk().truncate(1), n, "(truncate QK %s 1%%Z %s)" % (V, En)),
+                 ("e.copy()", lambda: mk().copy(), n, En), ("e.reduce()", lambda: mk().reduce(), n, En), ("e.separate()", lambda: mk().separate(), n, En)]
+        for op, f, nout, model in cases:
+            res = tc.real_coefflist(f())
+            B.add("code true (xcmp %d (peqb QK %d) %s %s)" % (nout, nout, model, tc.mkx(nout, res)),
+                  op="%s[e=%s]" % (op, kname), inp={"dim": d, "shape": [r, m], "b": tc.jsonable(b), "alpha": al, "beta": be, "k": k, "C": C.tolist()},
+                  impl=tc.jsonable(res) if res else [[0, 0, [1]]], dim=d, shape=shape, size=1)
+        # evaluation of the empty expansion is 0
+        u = np.array([1.5, -0.5, 0.25][:d])
+        v = tc.impl_value(mk(), u)
+        if not np.all(np.asarray(v) == 0): raise ArithmeticError("empty expansion evaluates to %r" % (v,))
+
+
 def scenario_eval(rng, T, d, B):
     shape = rng.choice(SHAPES); n = tc.nflat(shape)
     V = "(pwmod QK %d)" % n
@@ -421,6 +475,13 @@ def exact_tier(ck, Ts):
             # an exception of the implementation on an input inside the property's domain
             ck.violation("implementation raised %s: %s in scenario %s" % (type(e).__name__, e, sc),
                          {"scenario": sc, "dim": d, "group": g, "seed": ck.seed}, key="c16-exception-%s" % sc)
+    # empty operands, systematically, 3-D and 2-D
+    for rep in range(ck.n(1, 8)):
+        for d in (3, 2):
+            try:
+                scenario_empty(rng, Ts[d], d, B)
+            except (ArithmeticError, ValueError, TypeError, IndexError) as e:
+                ck.violation("implementation raised %s: %s with an empty expansion as operand" % (type(e).__name__, e), {"dim": d}, key="c16-exception-empty")
     # the full dtype matrix, systematically: every (coefficient dtype, operand dtype) pair, 3-D and 2-D
     import itertools as _it
     for rep in range(ck.n(1, 6)):
@@ -500,7 +561,7 @@ def float_tier(ck, Ts):
         uorig = u.copy()
         r = float(np.linalg.norm(uorig))
         op = rng.choice(["sum", "diff", "neg", "scalar", "ldot", "rdot", "product", "product-sm", "slice", "setitem", "truncate",
-                         "reduce", "reducecoeff", "collectcoeff", "separate", "construct", "powexp", "dtypes", "dtypes"])
+                         "reduce", "reducecoeff", "collectcoeff", "separate", "construct", "powexp", "dtypes", "dtypes", "empty", "unsorted"])
         checks = []          # (label, lhs, rhs_def, rhs_lib or None, scale)
         try:
             if op in ("sum", "diff", "neg", "scalar", "truncate", "slice", "setitem"):
@@ -592,6 +653,36 @@ def float_tier(ck, Ts):
                     elif op == "collectcoeff": t = T(T.collectcoeff(ta))
                     else: t = ta.copy().reduce().separate()
                 checks.append((op, ev(t, u), va, ev(ta, u), sc))
+            elif op == "unsorted":
+                # hand-built coefficient lists in arbitrary order (the constructor accepts any order): every operation must give what it gives
+                # for the sorted list
+                nl = tc.rand_nl(rng, -2, 4, 2, 4, distinct_n=True)      # distinct n: with repeated n the merge (first match) legitimately depends on the order
+                a = rand_float_expansion(nr, d, (2, 2), nl, cplx)
+                srt = sorted(a, key=lambda e: (e[0], e[1])); sh = list(a); rng.shuffle(sh)
+                if [(n, l) for n, l, _ in sh] == [(n, l) for n, l, _ in srt]: sh = sh[::-1]
+                b = rand_float_expansion(nr, d, (2, 2), tc.rand_nl(rng, -2, 4, 2, 2), cplx); tb = T(b)
+                va, vb = tc.value(srt, uorig, d), tc.value(b, uorig, d); sa = 1 + absscale(a, r); sb = 1 + absscale(b, r)
+                C = nr.normal(size=(2, 2))
+                pairs = [("unsorted:a+b", T(sh) + tb, T(srt) + tb, va + vb, sa + sb), ("unsorted:b-a", tb - T(sh), tb - T(srt), vb - va, sa + sb),
+                         ("unsorted:a*b", T(sh) * tb, T(srt) * tb, va @ vb, sa * sb), ("unsorted:b*a", tb * T(sh), tb * T(srt), vb @ va, sa * sb),
+                         ("unsorted:reduce", T(sh).reduce(), T(srt).reduce(), None, sa), ("unsorted:ldot", T(sh).ldot(C), None, C @ va, sa * (1 + np.abs(C).sum())),
+                         ("unsorted:truncate", T(sh).truncate(1), None, None, sa), ("unsorted:__call__", T(sh), None, va, sa)]
+                for lab, x, y, rhs, scl in pairs:
+                    if y is not None and not tc.same_expansion(x, y, 1e-11):
+                        ck.violation("order dependence: %s of a coefficient list in the order %s differs from the result for the sorted list" % (lab, [(n, l) for n, l, _ in sh]),
+                                     {"op": lab, "dim": d, "order": [(n, l) for n, l, _ in sh]}, key="c16-unsorted")
+                    if rhs is not None: checks.append((lab, ev(x, u), rhs, None, scl))
+                if d == 3 or True:
+                    per = ev(T(sh), u, per_order=True); per0, _ = tc.value(srt, uorig, d, per_order=True)
+                    checks.append(("unsorted:__call__(dict)", np.array([per[n] for n in sorted(per)]), np.array([per0[n] for n in sorted(per0)]), None, sa))
+            elif op == "empty":
+                b = rand_float_expansion(nr, d, (2, 2), tc.rand_nl(rng, -2, 4, 4, rng.randint(1, 3)), cplx)
+                tb = T(b); vb = tc.value(b, uorig, d); sc = 1 + absscale(b, r); C = nr.normal(size=(2, 2))
+                e1 = T(); e1 += tb; e2 = T(); e2 -= tb; e3 = tb.copy(); e3 -= T(); e4 = tb.copy(); e4 += T()
+                for lab, t, rhs in (("e+b", T() + tb, vb), ("b+e", tb + T(), vb), ("e-b", T() - tb, -vb), ("b-e", tb - T(), vb), ("e+=b", e1, vb), ("e-=b", e2, -vb),
+                                    ("b-=e", e3, vb), ("b+=e", e4, vb), ("e*b", T() * tb, 0 * vb), ("b*e", tb * T(), 0 * vb), ("e.ldot(C)", T().ldot(C), 0 * vb),
+                                    ("sum([e,b])", sum([T(), tb]), vb)):
+                    checks.append((lab + "[empty e]", ev(t, u), rhs, None, sc))
             elif op == "dtypes":
                 # coefficient dtype x operand dtype: (c.T)(u) = np.dot(c, T(u)), (T.c)(u) = np.dot(T(u), c), (k T)(u) = k T(u), (a+b)(u) = a(u)+b(u)
                 def typed(dt, shape):
